@@ -64,7 +64,7 @@ def opsTreemapAlg : Handler := fun st toks =>
     pure (st, specMark (showBool (Treemap.isSuperset O x.m y.m)) (showBool (Spec.isSubset y.s x.s)))
   | ["tis_disjoint", l, r] => do
     let (_, x) ← t? l; let (_, y) ← t? r
-    pure (st, specMark (showBool (Treemap.isDisjoint O x.m y.m)) (showBool (Spec.isDisjoint x.s y.s)))
+    pure (st, specMark (showBool (Treemap.isDisjointMirror O x.m y.m)) (showBool (Spec.isDisjoint x.s y.s)))
   | ["tinter_len", l, r] => do
     let (_, x) ← t? l; let (_, y) ← t? r
     pure (st, specMark (toString (Treemap.intersectionLen O x.m y.m)) (toString (Spec.sAnd x.s y.s).length))
@@ -87,7 +87,7 @@ def opsTreemapAlg : Handler := fun st toks =>
       | "res_own" => some (true, true) | "res_ref" => some (false, true) | _ => none
     if !isRes && items.any (fun x => match x with | .error _ => true | .ok _ => false) then none
     else
-      let m := Treemap.multiTry O op owned (items.map fun x => x.map (·.m))
+      let m := Treemap.multiTryMirror O op owned (items.map fun x => x.map (·.m))
       let s := (Treemap.firstErr (items.map fun x => x.map (·.s))).map (specMulti op)
       match m, s with
       | .ok mv, .ok sv => pure (st.setT i ⟨mv, sv⟩, "ok")
